@@ -1277,6 +1277,34 @@ func (env *ExprEnv) call(e *ast.CallExpr) TV {
 		}
 		v.regArray("ARGV", fmt.Sprintf("(Array Int %s)", v.idx()))
 		return TV{T: v.rd(env.heapNow(), "ARGV", f.T), Ty: types.Typ[types.Int64], Sort: v.idx()}
+	case "calledat", "lasterrnil":
+		// calledat(f) / calledat(x.M): logical time (now()) of the last invocation of function value f / of
+		// method M on interface value x; lasterrnil(...): that invocation returned a nil error
+		arr, srt := "STAMP", v.idx()
+		if fname == "lasterrnil" {
+			arr, srt = "RESNIL", "Bool"
+		}
+		v.regArray(arr, fmt.Sprintf("(Array Int %s)", srt))
+		rty := types.Type(types.Typ[types.Int])
+		if srt == "Bool" {
+			rty = types.Typ[types.Bool]
+		}
+		if se, ok := e.Args[0].(*ast.SelectorExpr); ok {
+			if x, ok := env.tryEval(se.X); ok && x.Ty != nil {
+				if it, isI := x.Ty.Underlying().(*types.Interface); isI {
+					for i := 0; i < it.NumMethods(); i++ {
+						if it.Method(i).Name() == se.Sel.Name {
+							return TV{T: v.rd(env.heapNow(), arr, v.methodKey(x.T, se.Sel.Name)), Ty: rty, Sort: srt}
+						}
+					}
+				}
+			}
+		}
+		f := env.eval(e.Args[0])
+		if f.Sort != "Int" {
+			fail("%s() of a non-function value", fname)
+		}
+		return TV{T: v.rd(env.heapNow(), arr, f.T), Ty: rty, Sort: srt}
 	case "calls", "lastnonnil":
 		// calls(f): number of invocations of function value f so far (ghost trace);
 		// calls(x.M) with x of interface type: invocations of method M on that value
